@@ -135,6 +135,8 @@ class MHistory:
         every = getattr(d.pf, 'restart_every', 0)
         if every:
             restart_at |= {i for i in range(n) if self.rng.random() < every}
+        if getattr(d.pf, 'standby', False):
+            self.guard(self.start_standby, 'standby-start')
         for i in range(n):
             if self.aborted:
                 break
@@ -158,7 +160,92 @@ class MHistory:
                 continue
             if self.guard(lambda: self.step(integrity), 'step') is None:
                 break
+        if getattr(self, 'standby_thread', None) is not None and not self.aborted:
+            self.guard(self.failover_to_standby, 'failover')
         return self
+
+    # ------------------------------------------------------------------
+    def start_standby(self):
+        """A second master process is started the way the service starts it - Master.run(): it queues for
+        the election lock the leader holds - and is left waiting while the history goes on."""
+        import threading
+        d = self.d
+        path = d.z.path.election('treadmill.scheduler.master')
+        d.mclient.ensure_path(path)
+        d.mclient.Lock(path).acquire()
+        self.standby_client = d.srv.client('standby')
+        sb = d.master_mod.Master(d.zkbackend.ZkBackend(self.standby_client), 'cell')
+        self.standby = sb
+        self.standby_result = {}
+        hist = self
+
+        class _Elected(BaseException):
+            pass
+
+        def init_schedule_hook():
+            # the model the new leader has when it is about to compute its first cycle
+            from . import crash
+            ref, old = hist.standby_ref
+            hist.standby_result['out'] = crash.compare_loaded(d, sb, ref, old)
+            raise _Elected()
+        sb.init_schedule = init_schedule_hook
+
+        def body():
+            try:
+                sb.run(once=True)
+            except _Elected:
+                pass
+            except BaseException as err:      # noqa
+                hist.standby_result['error'] = '%s: %s' % (type(err).__name__, err)
+                hist.standby_result['tb'] = traceback.format_exc()[-1200:]
+        t = threading.Thread(target=body, daemon=True)
+        t.start()
+        self.standby_thread = t
+        # until it is queued on the lock
+        import time as _time
+        for _ in range(400):
+            if d.srv.lock_waiters.get(path):
+                break
+            if not t.is_alive():
+                break
+            _time.sleep(0.005)
+        self.ctx.count('standby_masters_started')
+        return True
+
+    def failover_to_standby(self):
+        import os as _os
+        from . import crash
+        d = self.d
+        d.settle_delivery()
+        self.standby_ref = (crash.reference_from_store(d), d.snapshot_model())
+        real_exit = _os._exit
+
+        def fake_exit(code):
+            raise RuntimeError('os._exit(%r) in the standby master' % (code,))
+        _os._exit = fake_exit
+        try:
+            d.mclient.dead = True
+            d.srv.expire(d.mclient.sid)          # the leader is gone: its session ends, the lock is free
+            self.standby_thread.join(60)
+        finally:
+            _os._exit = real_exit
+        res = self.standby_result
+        self.ctx.count('standby_failovers')
+        case = dict(ops=d.ops[-40:], cycle=self.cycles, when='standby-failover')
+        if self.standby_thread.is_alive():
+            self.ctx.count('standby_never_elected')
+            return True
+        if 'error' in res:
+            self.ctx.violation('standby-master-failed-to-start', res['error'], witness=res.get('tb'), case=case)
+            return True
+        out = res.get('out')
+        if out is None:
+            self.ctx.count('standby_elected_without_reaching_init_schedule')
+            return True
+        self.ctx.count('standby_healthy_entries', out['healthy_entries'])
+        for mech, msg in out['violations']:
+            self.ctx.violation(mech + ':standby-failover', msg, case=case)
+        return True
 
     def start(self):
         d = self.d
